@@ -92,6 +92,9 @@ var (
 // MatchNumber checks one number result against its literal under C02's rule.
 func MatchNumber(lit string, got any, path string) *Mismatch {
 	n := &ref.Node{Kind: ref.Num, Lit: lit}
+	if n.HugeExp() {
+		return &Mismatch{path, "number-inf", nil, "exponent of more than 5 digits (don't care)"}
+	}
 	exact := n.Rat()
 	tags := NumShape(lit)
 	// "a plain integer literal whose magnitude fits int64": |value| <= MaxInt64
